@@ -265,10 +265,32 @@ fn run_case(c: &Case) -> Option<(String, String)> {
         }
         let mut want_fees = e.fee_ids.clone();
         want_fees.sort();
-        let mut got_fees = cell("FEE IDs seen").map(|v| nums(&v)).unwrap_or_default();
-        got_fees.sort();
-        if got_fees != want_fees {
-            return Some(("report:FEE IDs seen".into(), format!("report shows FEE IDs {:?}, the input has {:?}", cell("FEE IDs seen"), want_fees)));
+        // the FEE id cell may run over several lines and end with "... N more": listed ids + N = all ids, and the
+        // listed ones are the smallest ones in ascending order
+        let lines: Vec<&str> = out.lines().collect();
+        let mut got_fees: Vec<u64> = Vec::new();
+        let mut more: u64 = 0;
+        if let Some(i0) = lines.iter().position(|l| l.contains("FEE IDs seen")) {
+            let mut chunk = lines[i0].split("FEE IDs seen").nth(1).unwrap_or("").to_string();
+            for l in lines.iter().skip(i0 + 1) {
+                let inner = l.trim_matches(|ch: char| ch == '│' || ch == '|' || ch == ' ');
+                let first = inner.split_whitespace().next().unwrap_or("");
+                if first.chars().all(|ch| ch.is_ascii_digit()) && !first.is_empty() || inner.starts_with("...") {
+                    chunk.push(' ');
+                    chunk.push_str(inner);
+                } else {
+                    break;
+                }
+            }
+            if let Some(k) = chunk.find("...") {
+                more = nums(&chunk[k..]).first().copied().unwrap_or(0);
+                chunk.truncate(k);
+            }
+            got_fees = nums(&chunk);
+        }
+        let listed_ok = got_fees.len() as u64 + more == want_fees.len() as u64 && want_fees.iter().take(got_fees.len()).eq(got_fees.iter());
+        if !listed_ok {
+            return Some(("report:FEE IDs seen".into(), format!("report lists {} FEE IDs {:?}... and {} more, the input has {} ({:?}...)", got_fees.len(), got_fees.iter().take(6).collect::<Vec<_>>(), more, want_fees.len(), want_fees.iter().take(6).collect::<Vec<_>>())));
         }
         if cell("Run Trigger Type").map(|v| v.to_lowercase()) != Some(format!("{:#x}", e.run_trigger)) {
             return Some(("report:Run Trigger Type".into(), format!("report shows run trigger type {:?}, the first RDH has {:#x}", cell("Run Trigger Type"), e.run_trigger)));
@@ -466,6 +488,20 @@ pub fn run(tier: Tier) -> i32 {
             };
             cases.push(Case { label: format!("small-scope sequence {:?}", sq), bytes, mode, filter, errors: None, toml: si % 8 >= 4, stdin: si % 3 == 0 });
         }
+    }
+    // 1d. many FEE ids (the report's list wraps over lines and is cut with "... N more")
+    for nfee in [12usize, 80, 300] {
+        let pk: Vec<fp_model::stream::Packet> = (0..nfee)
+            .map(|i| {
+                let fee = fp_model::rdh::Rdh::its_fee_id((i / 48) as u8 % 7, (i % 48) as u8, (i / 336) as u8);
+                let mut p = gen::recognisable_framed((i % 3) as u8, fee, 16, 4400 + i as u64);
+                p.rdh.stop_bit &= 1;
+                p
+            })
+            .collect();
+        let bytes = stream::to_bytes(&pk);
+        cases.push(Case { label: format!("{nfee} distinct FEE ids"), bytes: bytes.clone(), mode: vec!["check", "sanity"], filter: None, errors: None, toml: false, stdin: false });
+        cases.push(Case { label: format!("{nfee} distinct FEE ids"), bytes, mode: vec!["view", "rdh"], filter: None, errors: None, toml: true, stdin: true });
     }
     // 1c. every known detector system id in the first RDH: the name in the statistics file and in the report
     for sys in [3u8, 4, 5, 6, 7, 8, 10, 15, 17, 18, 19, 32, 33, 34, 35, 36, 37, 38, 39, 255] {
